@@ -89,5 +89,28 @@ def r4(ctx):
     ctx.check('NtpTimestamp::sub|no-raw-sub', not raw, 'raw integer subtraction in timestamp difference', sample=len(raw))
 
 
-RULES = [r1, r2, r3, r4]
-FLOORS = {'C05-R1': 8, 'C05-R2': 3, 'C05-R3': 2, 'C05-R4': 2}
+def r5(ctx):
+    ctx.rule('C05-R5', 'pairing: NtpSource::process_message hands the controller the outgoing (T1,T2) measurement of measurements_from_packet(message, self.id, send_time, recv_time) '
+             'first and the incoming (T3,T4) one of the same call second (the wrapper pairs an incoming measurement with the last stored outgoing one); no other hand-over in NtpSource')
+    P = ctx.P
+    b = P.body('ntp_proto::source::NtpSource::process_message')
+    hm = b.calls(r'SourceController::handle_measurement$')
+    ctx.check('process_message|handle_measurement|two-sites', len(hm) == 2, 'handle_measurement calls: %d' % len(hm), sample=len(hm))
+    src = 'source::measurements_from_packet(message, self.id, send_time, recv_time)'
+    out = [c for c in hm if S(b.call_args(c)[1]) == src + '.0']
+    inc = [c for c in hm if S(b.call_args(c)[1]) == src + '.1']
+    ctx.check('process_message|handle_measurement|same-exchange', len(out) == 1 and len(inc) == 1, 'measurements handed over: %s' % [S(b.call_args(c)[1])[-60:] for c in hm], sample=[N(b.call_args(c)[1]) for c in hm])
+    params = [l.get('name') for l in b.locals[1:5]]
+    ctx.check('process_message|params', params == ['self', 'message', 'send_time', 'recv_time'], 'parameters %s' % params, sample=params)
+    if len(out) == 1 and len(inc) == 1:
+        o, i = out[0], inc[0]
+        before = (o.bb != i.bb and blocks_must_pass_block(b, i.bb, [o.bb]) and not b.can_reach(i.bb, o.bb)) or (o.bb == i.bb and (o.idx or 0) < (i.idx or 0))
+        ctx.check('process_message|outgoing-before-incoming', before, 'the incoming measurement is handed over before the outgoing one of the same exchange: it would be paired with the previous exchange', i.where(), sample=before)
+        recv = [S(b.call_args(c)[0]) for c in (o, i)]
+        ctx.check('process_message|same-controller', recv == ['self.controller', 'self.controller'], 'receivers %s' % recv, sample=recv)
+    others = [x.npath for x in P.bodies_matching(r'^ntp_proto::source::NtpSource::') if x.id != b.id and x.calls(r'handle_measurement$')]
+    ctx.check('NtpSource|no-other-hand-over', not others, 'other handle_measurement sites in NtpSource: %s' % others, sample=len(others))
+
+
+RULES = [r1, r2, r3, r4, r5]
+FLOORS = {'C05-R1': 8, 'C05-R2': 3, 'C05-R3': 2, 'C05-R4': 2, 'C05-R5': 5}
